@@ -40,14 +40,20 @@ let call_of = function
   | ["firetick"] -> CFireTick | ["errno"; e] -> CSetErrno (zi e) | ["live"] -> CLive
   | t -> failwith ("bad call: " ^ String.concat " " t)
 
+let call_names = [ "?"; "ctxreg"; "ctxdereg"; "finalize"; "loop"; "dispatch"; "quit"; "ctxlen"; "stats"; "settick"; "reg"; "dereg"; "start";
+  "pause"; "resume"; "stop"; "state"; "ref"; "unref"; "become"; "unbecome"; "stash"; "unstash"; "evtref"; "evtunref"; "batchsize";
+  "batchtimeout"; "tb"; "sub"; "unsub"; "tell"; "publish"; "broadcast"; "pill"; "srcreg"; "srcdereg"; "srclen"; "fdwrite"; "fire";
+  "firetick"; "errno"; "live" ]
+
 let desc_str d =
   Printf.sprintf "%d:%d:%d:%d:%d:%d:%d" (int_of_nat d.d_kind) (int_of_n d.d_key) (int_of_n d.d_topic) (int_of_n d.d_data)
     (int_of_z d.d_sender) (if d.d_sys then 1 else 0) (int_of_n d.d_up)
 
 let tev_str = function
   | TRet z -> "r" ^ string_of_int (int_of_z z)
-  | TCb (m, k, n, h, evs) ->
-      String.concat " " (["cb"; string_of_int (int_of_nat m); cbkind_str k; string_of_int (int_of_nat n); string_of_int (int_of_nat h)] @ List.map desc_str evs)
+  | TCb (m, k, n, h, st, evs) ->
+      String.concat " " (["cb"; string_of_int (int_of_nat m); cbkind_str k; string_of_int (int_of_nat n); string_of_int (int_of_nat h);
+                          "st=" ^ string_of_int (mstate_num st)] @ List.map desc_str evs)
   | TCbEnd -> "}"
   | TFreeData d -> "freedata " ^ string_of_int (int_of_n d)
   | TClose fd -> "close " ^ string_of_int (int_of_n fd)
@@ -57,7 +63,7 @@ let tev_str = function
       Printf.sprintf "live mod=%d src=%d msg=%d evt=%d data=%d ctx=%d fd=%d" (int_of_nat a) (int_of_nat b) (int_of_nat c)
         (int_of_nat d) (int_of_nat e) (int_of_nat f) (int_of_nat g)
   | TFault n -> "FAULT " ^ string_of_int (int_of_nat n)
-  | TMark n -> "mark " ^ string_of_int (int_of_nat n)
+  | TMark (n, a) -> "> " ^ (try List.nth call_names (int_of_nat n) with _ -> "?") ^ (if int_of_n a = 0 then "" else " " ^ string_of_int (int_of_n a))
 
 let () =
   let ic = open_in Sys.argv.(1) in
